@@ -54,6 +54,9 @@ pub struct Planner {
     viewing_epoch: EpochId,
     /// Counter for generating unique anonymous edge column names.
     anon_edge_counter: std::cell::Cell<u32>,
+    /// Names of the columns that hold edges (introduced by expansions). Operators that rebuild
+    /// their output from a schema (joins) need it to keep edge ids apart from node ids.
+    edge_columns: std::cell::RefCell<std::collections::HashSet<String>>,
     /// Whether to use factorized execution for multi-hop queries.
     factorized_execution: bool,
 }
@@ -72,6 +75,7 @@ impl Planner {
             tx_id: None,
             viewing_epoch: epoch,
             anon_edge_counter: std::cell::Cell::new(0),
+            edge_columns: std::cell::RefCell::new(std::collections::HashSet::new()),
             factorized_execution: true,
         }
     }
@@ -97,6 +101,7 @@ impl Planner {
             tx_id,
             viewing_epoch,
             anon_edge_counter: std::cell::Cell::new(0),
+            edge_columns: std::cell::RefCell::new(std::collections::HashSet::new()),
             factorized_execution: true,
         }
     }
@@ -547,6 +552,7 @@ impl Planner {
             self.anon_edge_counter.set(count + 1);
             format!("_anon_edge_{}", count)
         });
+        self.edge_columns.borrow_mut().insert(edge_col_name.clone());
         columns.push(edge_col_name);
 
         columns.push(expand.to_variable.clone());
@@ -624,6 +630,7 @@ impl Planner {
                 self.anon_edge_counter.set(count + 1);
                 format!("_anon_edge_{}", count)
             });
+            self.edge_columns.borrow_mut().insert(edge_col_name.clone());
             columns.push(edge_col_name);
             columns.push(expand.to_variable.clone());
 
@@ -791,7 +798,10 @@ impl Planner {
                 Arc::clone(&self.store),
             ));
 
-            Ok((Self::apply_return_distinct(ret, operator, distinct_schema), columns))
+            Ok((
+                Self::apply_return_distinct(ret, operator, distinct_schema),
+                columns,
+            ))
         } else {
             // Simple case: just return variables
             // Re-order columns to match return items if needed
@@ -816,12 +826,18 @@ impl Planner {
                     .all(|(i, p)| matches!(p, ProjectExpr::Column(c) if *c == i))
             {
                 // No reordering needed
-                Ok((Self::apply_return_distinct(ret, input_op, output_types), columns))
+                Ok((
+                    Self::apply_return_distinct(ret, input_op, output_types),
+                    columns,
+                ))
             } else {
                 let distinct_schema = output_types.clone();
                 let operator: Box<dyn Operator> =
                     Box::new(ProjectOperator::new(input_op, projections, output_types));
-                Ok((Self::apply_return_distinct(ret, operator, distinct_schema), columns))
+                Ok((
+                    Self::apply_return_distinct(ret, operator, distinct_schema),
+                    columns,
+                ))
             }
         }
     }
@@ -1545,7 +1561,19 @@ impl Planner {
 
     /// Derives a schema from column names (uses Any type to handle all value types).
     fn derive_schema_from_columns(&self, columns: &[String]) -> Vec<LogicalType> {
-        columns.iter().map(|_| LogicalType::Any).collect()
+        // Edge columns must stay edge-typed: an untyped column holding an id is read as a node
+        // id first, so e.w after a join returned the property of the node with the same id.
+        let edges = self.edge_columns.borrow();
+        columns
+            .iter()
+            .map(|c| {
+                if edges.contains(c) {
+                    LogicalType::Edge
+                } else {
+                    LogicalType::Any
+                }
+            })
+            .collect()
     }
 
     /// Plans an AGGREGATE operator.
@@ -1833,6 +1861,7 @@ impl Planner {
                 self.anon_edge_counter.set(count + 1);
                 format!("_anon_edge_{}", count)
             });
+            self.edge_columns.borrow_mut().insert(edge_col_name.clone());
             columns.push(edge_col_name);
             columns.push(expand.to_variable.clone());
 
